@@ -532,7 +532,11 @@ class ModelMixin(ModelMixin2, ModelMixin3):
             s2.first[key] = 'ABSENT'
             self.stats['forks'] += 1
             outs.append((NoneV(('absent', S(p.sym), tag)), s2))
-        sym = st.new(ElemE(pe.prov, tag, p.sym, True, ('first', S(p.sym), tag), schema=pe.schema))
+        child_schema = pe.schema
+        if pe.origin[0] == 'root' and pe.prov == 'MSG' and st.mon.get('envelope_only') \
+                and tag in (st.mon.get('sym:rootreq') or {}).get(p.sym, ()):
+            child_schema = False      # only the envelope (messageID, message element) is assumed; nothing below it
+        sym = st.new(ElemE(pe.prov, tag, p.sym, True, ('first', S(p.sym), tag), schema=child_schema))
         st.first[key] = sym
         self.hook('find', st, node, parent=p, tag=tag, result=Ref('elem', sym), path=False)
         outs.insert(0, (Ref('elem', sym), st))
